@@ -38,6 +38,7 @@ MANIFEST = {
             'the model and is decided on the real reader for every complementary complex up to a bounded size in every rotation.',
     'note': 'Names with two trailing stars are outside the property (complement is not an involution on them); patterns deeper than the '
             'recursion budget (1000) are excluded with a kernel-checked counterexample; pyparsing itself is modelled, tied by correspondence.',
+    'source_derived': 'STATEMENT LEVEL, FROM THE SOURCE (since batch 7): resolve_kernel_loops (translator/pykernel.py -> Gen/PyKernel.lean) and ComplexS.kernel_string (Gen/PyComplexS.lean) are transcribed from the working tree; PyKernel.py_resolve_kernel_loops_eq_model (equal to the model for every fuel and every forest of non-empty names that do not begin with a star; outside that the code raises IndexError or agrees: py_resolve_kernel_loops_eq_model_or_index_error, with kernel-checked witnesses for both corners), PyObj.Kernel.exec_kernel_string, and the transfers py_resolve_kernel_inverse, py_kernel_all_rotations, py_kernel_text_roundtrip, py_kernel_string_roundtrip (the str the translated kernel_string writes, parsed by the grammar model, is resolved by the translated resolve_kernel_loops back to sequence and structure); stream resolve_kernel_loops.source-derived.',
     'technique': 'Lean 4 joint invariant over the kernel stack machine and the bracket matcher, composed with symbolic execution of the grammar model; correspondence check; reader oracle',
 }
 
